@@ -267,9 +267,10 @@ func c12X2(l *core.Ledger, r *rt) {
 							continue
 						}
 						if cv, isDone := isDoneOf(st.Chan); isDone && isParentCtx(cv) {
-							// the case must lead to return without passing the loop head again
+							// the case must lead out of the loop: this select is not reached again from it
+							// (directly by return, or through the loop condition with a flag the case sets)
 							if e, found := selectCaseEdge(s, i); found {
-								if _, back := sx.Reach(sx.Node{B: e.To, I: -1}, func(x sx.Node) bool { return x == hn }, sx.Query{}); !back {
+								if _, back := sx.Reach(sx.Node{B: e.To, I: -1}, func(x sx.Node) bool { return x == nd }, sx.Query{}); !back {
 									return true
 								}
 							}
